@@ -153,7 +153,9 @@ def ob_tv(skeleton, transform, budget_s=60.0, max_paths=4000, require_fire=False
     outs = sorted(stats.pop("outputs"))
     d["notes"] = dict(stats, distinct_outputs=len(outs), output_sample=outs[:2])
     d["fired"] = stats["fired"]
-    if not stats["fired"] or stats["outside"] == res.paths or (res.claims == 0 and res.outside_paths > 0):
+    if not stats["fired"] or stats["outside"] == res.paths or res.claims == 0:
+        # no claim: on every path the rule was silent, the original left the program class (raises / out of fuel), or the
+        # tool crashed (C04's business; counted in notes)
         d["allow_vacuous"] = True  # counted as trivial (original never terminates normally / rule silent), not as a pass
         d["trivial"] = True
     return d
